@@ -16,6 +16,7 @@ import (
 	"time"
 
 	"github.com/tochemey/goakt/v4/log"
+	"github.com/tochemey/goakt/v4/supervisor"
 )
 
 // vdMsg is a user message with an identity.
@@ -27,6 +28,7 @@ type vdMsg struct {
 	Entered chan struct{} // closed when the handler has been entered (optional)
 	Block   chan struct{} // the handler waits for this channel to be closed (optional)
 	Stop    bool          // the handler calls ctx.Shutdown() before returning
+	Panic   bool          // the handler panics after its bookkeeping (supervision: resume / restart)
 }
 
 // vdRecorder is the property oracle of one actor: overlap of handler invocations and the
@@ -115,6 +117,9 @@ func (a *vdActor) Receive(ctx *ReceiveContext) {
 			ctx.Shutdown()
 		}
 		a.rec.exit()
+		if m.Panic {
+			panic("verif: requested failure")
+		}
 	default:
 		a.rec.enter(fmt.Sprintf("%T", m))
 		if a.yieldIn {
@@ -247,6 +252,12 @@ func vdMailboxByName(name string) Mailbox {
 		return NewNonBlockingBoundedMailbox(4096)
 	case "fair":
 		return NewUnboundedFairMailbox()
+	case "upriority":
+		return NewUnboundedPriorityMailBox(vdPrio)
+	case "bpriority":
+		return NewBoundedPriorityMailbox(4096, vdPrio)
+	case "bstable":
+		return NewBoundedStablePriorityMailbox(4096, vdPrio)
 	case "priority":
 		return NewUnboundedStablePriorityMailbox(func(a, b any) bool {
 			x, ok1 := a.(*vdMsg)
@@ -344,7 +355,7 @@ func (e *vdScenarioEnv) tell(m *vdMsg) bool {
 	return true
 }
 func (e *vdScenarioEnv) idle() bool {
-	return vdWaitUntil(5*time.Second, func() bool {
+	return vdWaitUntil(15*time.Second, func() bool {
 		return e.pid.schedState.Load() == dispatchIdle && e.gate.inner.IsEmpty() && e.rec.inHandler.Load() == 0
 	})
 }
@@ -383,7 +394,7 @@ func vdRunScenario(name, mailbox string, budget int, body func(e *vdScenarioEnv)
 		r()
 	}
 	out.Told = len(e.ids)
-	ok := vdWaitUntil(5*time.Second, func() bool {
+	ok := vdWaitUntil(15*time.Second, func() bool {
 		c, _ := rec.snapshot()
 		for _, id := range e.ids {
 			if c[id] == 0 {
@@ -437,7 +448,7 @@ func vdScenarios(mailbox string) []vdScenarioOut {
 		if !e.tell(e.msg(false, false)) {
 			return false
 		}
-		if !vdWait(pa.reached, 5*time.Second) {
+		if !vdWait(pa.reached, 15*time.Second) {
 			e.out.Why = "worker never observed an empty dequeue"
 			return false
 		}
@@ -458,7 +469,7 @@ func vdScenarios(mailbox string) []vdScenarioOut {
 		if !e.tell(e.msg(false, false)) {
 			return false
 		}
-		if !vdWait(pa.reached, 5*time.Second) {
+		if !vdWait(pa.reached, 15*time.Second) {
 			e.out.Why = "worker never reached the emptiness re-check"
 			return false
 		}
@@ -467,7 +478,7 @@ func vdScenarios(mailbox string) []vdScenarioOut {
 		if !e.tell(mA) {
 			return false
 		}
-		if !vdWait(mA.Entered, 5*time.Second) {
+		if !vdWait(mA.Entered, 15*time.Second) {
 			e.out.Why = "message told after the reset was not picked up by another worker"
 			e.out.Stalled = true
 			return true
@@ -491,7 +502,7 @@ func vdScenarios(mailbox string) []vdScenarioOut {
 		e.ids = append(e.ids, m1.ID)
 		done := make(chan error, 1)
 		go func() { done <- Tell(e.ctx, e.pid, m1) }()
-		if !vdWait(pa.reached, 5*time.Second) {
+		if !vdWait(pa.reached, 15*time.Second) {
 			e.out.Why = "producer never completed its enqueue"
 			return false
 		}
@@ -514,7 +525,7 @@ func vdScenarios(mailbox string) []vdScenarioOut {
 		if !e.tell(e.msg(false, false)) {
 			return false
 		}
-		if !vdWait(pa.reached, 5*time.Second) {
+		if !vdWait(pa.reached, 15*time.Second) {
 			e.out.Why = "worker never started its turn"
 			return false
 		}
@@ -525,7 +536,7 @@ func vdScenarios(mailbox string) []vdScenarioOut {
 			return false
 		}
 		pa.release()
-		if !vdWait(m2.Entered, 5*time.Second) {
+		if !vdWait(m2.Entered, 15*time.Second) {
 			e.out.Why = "second message of the turn not handled"
 			e.out.Stalled = true
 			return true
@@ -544,7 +555,7 @@ func vdScenarios(mailbox string) []vdScenarioOut {
 		if !e.tell(e.msg(false, false)) {
 			return false
 		}
-		if !vdWait(pa.reached, 5*time.Second) {
+		if !vdWait(pa.reached, 15*time.Second) {
 			e.out.Why = "worker never saw an empty mailbox at the re-check"
 			return false
 		}
@@ -567,7 +578,7 @@ func vdScenarios(mailbox string) []vdScenarioOut {
 		if !e.tell(e.msg(false, false)) {
 			return false
 		}
-		if !vdWait(pa.reached, 5*time.Second) {
+		if !vdWait(pa.reached, 15*time.Second) {
 			e.out.Why = "worker never observed an empty dequeue"
 			return false
 		}
@@ -576,7 +587,7 @@ func vdScenarios(mailbox string) []vdScenarioOut {
 			return false
 		}
 		pa.release()
-		if !vdWait(pb.reached, 5*time.Second) {
+		if !vdWait(pb.reached, 15*time.Second) {
 			e.out.Why = "worker did not see the message at the re-check"
 			e.out.Stalled = !e.handled(m1.ID)
 			return true
@@ -609,7 +620,7 @@ func vdScenarios(mailbox string) []vdScenarioOut {
 		e.ids = append(e.ids, m1.ID)
 		done := make(chan error, 1)
 		go func() { done <- Tell(e.ctx, e.pid, m1) }()
-		if !vdWait(pa.reached, 5*time.Second) {
+		if !vdWait(pa.reached, 15*time.Second) {
 			e.out.Why = "producer never reached Enqueue"
 			return false
 		}
@@ -633,6 +644,9 @@ type vdStressCfg struct {
 	Procs     int
 	Gate      bool // wrap the mailbox in the gate and yield at its preemption points
 	SelfTell  bool
+	Restarts  int    // number of pid.Restart calls issued concurrently with the senders
+	Panics    int    // every Panics-th message makes the handler panic (0: never)
+	Directive string // supervisor directive for panics: "restart" | "resume"
 }
 type vdStressOut struct {
 	Cfg       vdStressCfg `json:"cfg"`
@@ -684,13 +698,33 @@ func vdRunStress(cfg vdStressCfg, seed uint64) (out vdStressOut) {
 		})
 		mb = gate
 	}
-	pid, err := sys.Spawn(ctx, "a", &vdActor{rec: rec, yieldIn: true}, WithLongLived(), WithMailbox(mb))
+	spawnOpts := []SpawnOption{WithLongLived(), WithMailbox(mb)}
+	switch cfg.Directive {
+	case "restart":
+		spawnOpts = append(spawnOpts, WithSupervisor(supervisor.NewSupervisor(supervisor.WithAnyErrorDirective(supervisor.RestartDirective))))
+	case "resume":
+		spawnOpts = append(spawnOpts, WithSupervisor(supervisor.NewSupervisor(supervisor.WithAnyErrorDirective(supervisor.ResumeDirective))))
+	}
+	pid, err := sys.Spawn(ctx, "a", &vdActor{rec: rec, yieldIn: true}, spawnOpts...)
 	if err != nil {
 		out.Err = err.Error()
 		return
 	}
 	var wg sync.WaitGroup
 	var accepted, rejected atomic.Int64
+	stopRestarts := make(chan struct{})
+	restartsDone := make(chan struct{})
+	go func() {
+		defer close(restartsDone)
+		for i := 0; i < cfg.Restarts; i++ {
+			select {
+			case <-stopRestarts:
+				return
+			case <-time.After(time.Duration(1+i%3) * time.Millisecond):
+			}
+			_ = pid.Restart(ctx)
+		}
+	}()
 	ids := make([][]uint64, cfg.Senders)
 	for s := 0; s < cfg.Senders; s++ {
 		wg.Add(1)
@@ -699,7 +733,18 @@ func vdRunStress(cfg vdStressCfg, seed uint64) (out vdStressOut) {
 			rng := newVerifRNG(seed*1000 + uint64(s))
 			for k := 0; k < cfg.PerSender; k++ {
 				m := &vdMsg{ID: uint64(s)<<32 | uint64(k+1), Sender: s, Seq: k, Spin: rng.intn(3)}
-				if err := Tell(ctx, pid, m); err != nil {
+				if cfg.Panics > 0 && (k+1)%cfg.Panics == 0 {
+					m.Panic = true
+				}
+				err := Tell(ctx, pid, m)
+				if err != nil && (cfg.Restarts > 0 || cfg.Directive == "restart") {
+					// the actor is between stop and init of a restart: try again for a while
+					for r := 0; r < 40 && err != nil; r++ {
+						time.Sleep(250 * time.Microsecond)
+						err = Tell(ctx, pid, m)
+					}
+				}
+				if err != nil {
 					rejected.Add(1)
 				} else {
 					accepted.Add(1)
@@ -718,8 +763,14 @@ func vdRunStress(cfg vdStressCfg, seed uint64) (out vdStressOut) {
 		}(s)
 	}
 	wg.Wait()
+	close(stopRestarts)
+	<-restartsDone
 	out.Accepted, out.Rejected = int(accepted.Load()), int(rejected.Load())
-	ok := vdWaitUntil(20*time.Second, func() bool { return rec.handledN.Load() >= accepted.Load() })
+	waitFor := 20 * time.Second
+	if cfg.Restarts > 0 || cfg.Directive == "restart" {
+		waitFor = 500 * time.Millisecond // a restart may drop queued messages: only the overlap oracle applies
+	}
+	ok := vdWaitUntil(waitFor, func() bool { return rec.handledN.Load() >= accepted.Load() })
 	// quiescence: nothing in flight any more
 	time.Sleep(2 * time.Millisecond)
 	out.Stalled = !ok
@@ -861,5 +912,163 @@ func vdRunGrainStress(senders, per, budget, procs int, seed uint64) (out vdGrain
 	rec.mu.Lock()
 	out.At = append([]string(nil), rec.overlapAt...)
 	rec.mu.Unlock()
+	return out
+}
+
+
+func vdPrio(a, b any) bool {
+	x, ok1 := a.(*vdMsg)
+	y, ok2 := b.(*vdMsg)
+	if !ok1 || !ok2 {
+		return ok2 && !ok1
+	}
+	return x.Seq%3 < y.Seq%3
+}
+
+// ---------------------------------------------------------------- stash / unstash stress
+type vdCtl struct{ Op string } // "stash-on" | "stash-off" | "unstash-one" | "unstash-all"
+
+// vdStashActor stashes user messages while in stashing mode; the oracle counts a message as processed only
+// when it is handled outside stashing mode.
+type vdStashActor struct {
+	rec      *vdRecorder
+	stashing bool
+	stashed  atomic.Int64
+}
+
+func (a *vdStashActor) PreStart(*Context) error { return nil }
+func (a *vdStashActor) PostStop(*Context) error { return nil }
+func (a *vdStashActor) Receive(ctx *ReceiveContext) {
+	switch m := ctx.Message().(type) {
+	case *vdMsg:
+		a.rec.enter(fmt.Sprintf("msg %d", m.ID))
+		if a.stashing {
+			ctx.Stash()
+			a.stashed.Add(1)
+		} else {
+			a.rec.record(m.ID)
+		}
+		a.rec.exit()
+	case *vdCtl:
+		a.rec.enter("ctl " + m.Op)
+		switch m.Op {
+		case "stash-on":
+			a.stashing = true
+		case "stash-off":
+			a.stashing = false
+		case "unstash-one":
+			if a.stashed.Load() > 0 {
+				was := a.stashing
+				a.stashing = false
+				ctx.Unstash()
+				a.stashed.Add(-1)
+				_ = was
+			}
+		case "unstash-all":
+			a.stashing = false
+			ctx.UnstashAll()
+			a.stashed.Store(0)
+		}
+		a.rec.exit()
+	default:
+		a.rec.enter(fmt.Sprintf("%T", m))
+		a.rec.exit()
+	}
+}
+
+type vdStashOut struct {
+	Mailbox  string `json:"mailbox"`
+	Senders  int    `json:"senders"`
+	Accepted int64  `json:"accepted"`
+	Handled  int64  `json:"handled"`
+	Overlaps int64  `json:"overlaps"`
+	Dup      int    `json:"duplicates"`
+	Lost     int    `json:"lost"`
+	Stalled  bool   `json:"stalled"`
+	Rounds   int    `json:"stash_rounds"`
+	Err      string `json:"err"`
+}
+
+func vdRunStashStress(mailbox string, senders, per, budget, procs int, seed uint64) (out vdStashOut) {
+	out.Mailbox, out.Senders = mailbox, senders
+	old := runtime.GOMAXPROCS(procs)
+	defer runtime.GOMAXPROCS(old)
+	ctx := context.Background()
+	sys, err := vdNewSystem("vdstash", WithThroughputBudget(budget))
+	if err != nil {
+		out.Err = err.Error()
+		return
+	}
+	defer sys.Stop(ctx)
+	rec := newVdRecorder()
+	act := &vdStashActor{rec: rec}
+	pid, err := sys.Spawn(ctx, "a", act, WithLongLived(), WithStashing(), WithMailbox(vdMailboxByName(mailbox)))
+	if err != nil {
+		out.Err = err.Error()
+		return
+	}
+	var accepted atomic.Int64
+	ids := make([][]uint64, senders)
+	var idmu sync.Mutex
+	const rounds = 10
+	crng := newVerifRNG(seed ^ 0xabcdef)
+	for r := 0; r < rounds; r++ {
+		out.Rounds++
+		_ = Tell(ctx, pid, &vdCtl{Op: "stash-on"})
+		var wg sync.WaitGroup
+		for s := 0; s < senders; s++ {
+			wg.Add(1)
+			go func(s, r int) {
+				defer wg.Done()
+				rng := newVerifRNG(seed*313 + uint64(s*100+r))
+				for k := 0; k < per/rounds; k++ {
+					m := &vdMsg{ID: uint64(s)<<32 | uint64(r*100000+k+1), Sender: s, Seq: k}
+					if err := Tell(ctx, pid, m); err == nil {
+						accepted.Add(1)
+						idmu.Lock()
+						ids[s] = append(ids[s], m.ID)
+						idmu.Unlock()
+					}
+					if rng.intn(4) == 0 {
+						runtime.Gosched()
+					}
+				}
+			}(s, r)
+		}
+		// toggle while the senders are still running in some rounds, after them in others
+		switch crng.intn(3) {
+		case 0:
+			wg.Wait()
+		case 1:
+			time.Sleep(time.Duration(50+crng.intn(200)) * time.Microsecond)
+		}
+		if crng.intn(2) == 0 {
+			_ = Tell(ctx, pid, &vdCtl{Op: "unstash-one"})
+			_ = Tell(ctx, pid, &vdCtl{Op: "stash-on"})
+		}
+		_ = Tell(ctx, pid, &vdCtl{Op: "unstash-all"})
+		wg.Wait()
+	}
+	ok := vdWaitUntil(10*time.Second, func() bool {
+		if rec.handledN.Load() >= accepted.Load() {
+			return true
+		}
+		_ = Tell(ctx, pid, &vdCtl{Op: "unstash-all"})
+		time.Sleep(2 * time.Millisecond)
+		return false
+	})
+	out.Stalled = !ok
+	out.Accepted, out.Handled, out.Overlaps = accepted.Load(), rec.handledN.Load(), rec.overlaps.Load()
+	counts, _ := rec.snapshot()
+	for s := range ids {
+		for _, id := range ids[s] {
+			switch c := counts[id]; {
+			case c == 0:
+				out.Lost++
+			case c > 1:
+				out.Dup += c - 1
+			}
+		}
+	}
 	return out
 }
